@@ -1,0 +1,17 @@
+//go:build verif
+// +build verif
+
+package discover
+
+import (
+	"context"
+
+	"github.com/hashicorp/serf/serf"
+)
+
+// Verification hook (build tag verif): the serf-event translator fed from a
+// channel instead of a live serf instance. No logic of its own.
+func VerifPListen(ctx context.Context, in chan serf.Event, out chan P2PEvent) {
+	s := &serfNet{eventch: in}
+	s.Listen(ctx, out)
+}
